@@ -37,7 +37,9 @@ func engineSpec(id string, profiles []lab.Profile, opts lab.RunOpts, check func(
 			if sc.CancelStartUs != 0 {
 				res.Label("start-context-cancelled-mid-run")
 			}
-			check(rr, &res)
+			if check != nil {
+				check(rr, &res)
+			}
 			return res
 		},
 		Journal:      true,
@@ -298,18 +300,74 @@ func TestC07(t *testing.T) {
 	}))
 }
 
+// C08Case: a scenario plus optional write-fault points (permille of the run's storage updates): for each, a child
+// process runs the scenario with that storage update failing and its event log is judged with the same rules.
+type C08Case struct {
+	Sc    lab.Scenario
+	Fault []int
+}
+
 func TestC08(t *testing.T) {
-	vprop.Run(t, engineSpec("C08", []lab.Profile{pfDurability}, lab.RunOpts{}, func(rr *lab.RunResult, res *vprop.Result) {
-		mid := lab.CheckC08(rr, res)
-		retryOrMulti := false
-		rr.Sc.EachAction(func(r lab.Ref, a *lab.ActionSpec) {
-			if len(a.Script) >= 2 || (r.IsSeq() && r.Act >= 1) {
-				retryOrMulti = true
+	base := engineSpec("C08", []lab.Profile{pfDurability}, lab.RunOpts{}, nil)
+	vprop.Run(t, vprop.Spec[C08Case]{
+		ID: "C08",
+		Gen: func(t *rapid.T) C08Case {
+			c := C08Case{Sc: base.Gen(t)}
+			if rapid.IntRange(0, 7).Draw(t, "writeFault") == 7 {
+				n := rapid.IntRange(1, 2).Draw(t, "nFaults")
+				for i := 0; i < n; i++ {
+					c.Fault = append(c.Fault, rapid.IntRange(0, 1000).Draw(t, "faultAt"))
+				}
 			}
-		})
-		res.NonTrivial = retryOrMulti
-		if mid >= 3 {
-			res.Label("polls-mid-run>=3")
-		}
-	}))
+			return c
+		},
+		Check: func(c C08Case) (res vprop.Result) {
+			sc := c.Sc
+			rr := lab.Run(&sc, lab.RunOpts{})
+			res.Sample = map[string]any{"scenario": sc.Summary(), "write_fault_permille": c.Fault}
+			if rr.NewErr != nil {
+				res.Skip = true
+				return res
+			}
+			if rr.Stalled {
+				res.Label("stalled")
+			}
+			if len(sc.Plans) > 1 {
+				res.Label("multi-plan")
+			}
+			mid := lab.CheckC08(rr, &res)
+			retryOrMulti := false
+			sc.EachAction(func(r lab.Ref, a *lab.ActionSpec) {
+				if len(a.Script) >= 2 || (r.IsSeq() && r.Act >= 1) {
+					retryOrMulti = true
+				}
+			})
+			res.NonTrivial = retryOrMulti
+			if mid >= 3 {
+				res.Label("polls-mid-run>=3")
+			}
+			if len(res.Violations) > 0 || len(c.Fault) == 0 {
+				return res
+			}
+			updates := 0
+			for _, e := range rr.Events {
+				if e.Kind == lab.EvWriteEnd && e.W != nil && !e.W.Create {
+					updates++
+				}
+			}
+			for _, p := range c.Fault {
+				if updates < 2 {
+					break
+				}
+				res.Label("with-write-fault")
+				lab.WriteFault(&sc, 1+p*(updates-1)/1000, &res)
+				if len(res.Violations) > 0 {
+					break
+				}
+			}
+			return res
+		},
+		Journal:      true,
+		ReplayRepeat: 10,
+	})
 }
